@@ -21,6 +21,7 @@ func main() {
 	per := flag.Int("per", 24, "programs per package")
 	maxTasks := flag.Int("maxtasks", 8, "max tasks per flow")
 	kind := flag.String("kind", "mixed", "mixed|modifier")
+	modEmit := flag.Bool("modemit", false, "modifier-kind corpora also use cff.WithEmitter / cff.InstrumentFlow / cff.Instrument")
 	plain := flag.Bool("plainnames", false, "do not name user variables like identifiers the generated code introduces")
 	flag.Parse()
 	rng := rand.New(rand.NewSource(*seed))
@@ -43,6 +44,9 @@ func main() {
 		if opts.Modifier {
 			// modifier mode is specified for Params, Results, Concurrency and plain Tasks only
 			opts.Emitters, opts.AutoInstr = false, false
+			if *kind == "modifier" && *modEmit {
+				opts.Emitters = k%3 != 0 // ... and is also run with emitters and InstrumentFlow (C18)
+			}
 		}
 		pkgs = append(pkgs, pkgInfo{Name: pkg, AutoInstr: opts.AutoInstr})
 		regs = nil
